@@ -76,7 +76,7 @@ func TestC06(t *testing.T) {
 	p.Inject = true
 	p.MaxVals = 6
 	p.BlockGasBoundary = true
-	p.Alt, p.PAlt = gasGovProfile(), 30
+	p.Alt, p.PAlt = gasGovProfile(), 45
 	p.Alt.Inject = true
 	runCheck(t, "C06", p, func(src Source, st *Stats) *Outcome {
 		c, err := RunPrimary("C06", src, nil)
